@@ -284,9 +284,10 @@ def discharge(ob, both=False, use_cvc5=True):
     h = hints().get(getattr(ob, "name", None) or "")
     first_ms = 2000
     if h:
-        if set(h["backends"]) == {"z3"} and h["max_time"] > 0.5:
-            # known to need a longer plain z3 run: give it 8x its time (load on 16 cores) before the expensive detours
-            first_ms = int(min(60000, max(4000, 8000 * h["max_time"])))
+        zt = h.get("per_backend", {}).get("z3", h["max_time"] if set(h["backends"]) == {"z3"} else 0.0)
+        if "z3" in h["backends"] and zt > 0.5:
+            # known to need a longer plain z3 run (on some path): give it 8x its time (load on 16 cores) before the detours
+            first_ms = int(min(60000, max(4000, 8000 * zt)))
         elif "z3" not in h["backends"]:
             first_ms = 1000
     r, dt, model, reason = run_z3(ob, first_ms)
